@@ -287,7 +287,8 @@ def long_inputs(r, props, sizes, fams=("lr", "lr2", "hidden", "mutual", "arith",
     rows = core.read_ndjson(tr)
     res = {"violations": 0}
     for v in json.load(open(rep))["violations"]:      # what the probes themselves stop: the re-entry bound (C02)
-        if v["prop"] in props:
+        # (the harness' own comparison with expected ends does not apply here: the cases carry no expectation)
+        if v["prop"] in props and v.get("what") == "re-entry bound exceeded":
             c = v["case"]
             case = {"kind": "parsecase", "G": c["G"], "w": c["w"], "B": c["B"], "adm": c["adm"], "asks": [[a["n"], a["p"]] for a in c["asks"]],
                     "root": c["asks"][0]["n"], "key": case_key(c), "grammar": gtext(c["G"]), "input": wtext(c["w"]), "props": props,
